@@ -37,7 +37,7 @@ C3 == {Class(<<"K", n, o>>, <<>>, fk @@ mk) : n \in NV, o \in NV, fk \in OptMap(
 Trees3 == {Root(<<"a", "b", "c">>, <<>>, ck) : ck \in OptMap(C3)}
 
 (* comments whose line structure is unusual: trailing / leading / only line breaks, blank lines *)
-DocPool == {<<>>, <<"t\n">>, <<"\n">>, <<"\nl">>, <<"a\n\nb">>, <<"two\nlines">>}
+DocPool == {<<>>, <<"t\n">>, <<"\n">>, <<"\nl">>, <<"a\n\nb">>, <<"two\nlines">>, <<"p\\t\\r\\0">>}     \* the last: backslashes in front of t, r, 0
 DocTrees == {Root(<<"a", "b">>, rd, MapOf({Class(<<"K", "x">>, d, MapOf({Field(<<"f", "y">>, "I", d2),
                                                                           Method(<<"m", "">>, "(I)V", d2, MapOf({Param(0, <<"", "p">>, d)}))}))})) :
                 rd \in {<<>>, <<"root\n">>}, d \in DocPool, d2 \in DocPool}
